@@ -288,8 +288,10 @@ var helloByProto = map[string][]byte{}
 
 // ---- (b) handshake and idle timeouts, server built by the binary's own constructor -----------------
 
-func binaryStack(hs, idle string) bubble.StackOpts {
-	fingerproxy.VerifSetFlags(fingerproxy.VerifFlags{Probe: true, Flush: "100ms", Idle: idle, Read: "60s", Write: "60s", TLSHandshake: hs})
+func binaryStack(hs, idle string) bubble.StackOpts { return binaryStackR(hs, idle, "60s") }
+
+func binaryStackR(hs, idle, read string) bubble.StackOpts {
+	fingerproxy.VerifSetFlags(fingerproxy.VerifFlags{Probe: true, Flush: "100ms", Idle: idle, Read: read, Write: "60s", TLSHandshake: hs})
 	return bubble.StackOpts{Build: func(ctx context.Context, h http.Handler, tc *tls.Config) *proxyserver.Server {
 		return fingerproxy.VerifDefaultProxyServer(ctx, h, tc)
 	}}
@@ -302,7 +304,7 @@ func timeouts(t *testing.T, rep *ev.Report) {
 			name string
 			k    int
 			raw  bool
-		}{{"no-bytes", 0, false}, {"3-bytes", 3, false}, {"header-only", 5, false}, {"mid-hello", 100, false}, {"hello-no-finished", -1, true}} {
+		}{{"no-bytes", 0, false}, {"3-bytes", 3, false}, {"header-only", 5, false}, {"mid-hello", 100, false}, {"hello-no-finished", -1, true}, {"hello-then-never-reads", -2, true}} {
 			desc := fmt.Sprintf("handshake-timeout T=%v stall=%s", T, stall.name)
 			res := bubble.Run(t, func() {
 				st := bubble.NewStack(binaryStack(T.String(), "180s"))
@@ -310,6 +312,10 @@ func timeouts(t *testing.T, rep *ev.Report) {
 				var cl *bubble.Client
 				if stall.raw {
 					cl = st.DialRaw("staller", nil)
+					if stall.k == -2 {
+						// the client does not read either and its receive buffer is tiny: the proxy blocks WRITING its handshake flight
+						cl.Srv.SetWriteCap(64)
+					}
 					cl.Raw.Write(helloByProto["h2"]) // complete ClientHello, then silence: the server answers and waits for Finished
 				} else {
 					h := faults.HelloH2
@@ -337,7 +343,9 @@ func timeouts(t *testing.T, rep *ev.Report) {
 		}
 	}
 	// idle timeout
-	for _, I := range []time.Duration{30 * time.Second, 180 * time.Second} {
+	for _, I := range []time.Duration{30 * time.Second, 180 * time.Second, -45 * time.Second} {
+		// a negative value encodes "-timeout-http-idle 0s with -timeout-http-read 45s": per net/http (which the flag documentation
+		// refers to) the read timeout then is the idle timeout - for HTTP/1.1 clients just as for HTTP/2 clients
 		for _, proto := range []string{"h1", "h2"} {
 			for _, nreq := range []int{1, 2, 3} { // 3 = two served requests, then (h2) a third one cancelled by RST_STREAM while in flight / (h1) nothing more
 				if nreq == 3 && proto == "h1" {
@@ -348,7 +356,13 @@ func timeouts(t *testing.T, rep *ev.Report) {
 					desc = fmt.Sprintf("idle-timeout I=%v proto=h2 after 2 served requests and one request cancelled by RST_STREAM while in flight", I)
 				}
 				res := bubble.Run(t, func() {
-					st := bubble.NewStack(binaryStack("10s", I.String()))
+					opts := binaryStack("10s", I.String())
+					if I < 0 {
+						I = -I
+						opts = binaryStackR("10s", "0s", I.String())
+						desc += " (idle flag 0s, read timeout " + I.String() + ")"
+					}
+					st := bubble.NewStack(opts)
 					defer st.Shutdown()
 					h := faults.HelloH1
 					if proto == "h2" {
